@@ -15,7 +15,7 @@ class HandoffFamily(Family):
                "the schedule of the two feeding Go routines is left to the Go scheduler (biased by start delays and pauses); the model's observation is schedule-independent (multiset of lines), the ordering clauses are judged on the implementation's file"]
     assumptions = ["observation: the lines of the output file in file order, each decoded strictly as one audit event (unknown fields, trailing data, missing final newline count as torn)",
                    "in-process mode waits until the line buffer is empty and the parser is parked; daemon mode waits for the expected number of lines (8 s), then 30 ms more"]
-    rule = "N sessions (1..40), each an accepted-publickey line on the sshd side and LOGIN + k commands + CRED_DISP on the audit side, fed concurrently by two Go routines (audit records of all sessions interleaved round-robin, bursts), start delays biasing which side goes first; in-process and through the built daemon; non-trivial = at least 2 sessions"
+    rule = "N sessions (1..40), each an accepted-publickey line on the sshd side and LOGIN + k commands + CRED_DISP on the audit side, fed concurrently by two Go routines (audit records of all sessions interleaved round-robin, bursts), start delays biasing which side goes first; in-process and through the built daemon (output: a regular file; and a FIFO with a slow reader and events larger than PIPE_BUF); non-trivial = at least 2 sessions"
 
     def harness_line(self, c):
         return "%s %s %s %d:%d %d%s" % (c["id"], c["mode"], ",".join("%d:%s:%d:%d" % s for s in c["sessions"]), c["ds"], c["da"], c["seed"],
@@ -81,6 +81,14 @@ class HandoffFamily(Family):
                 ss.append((1000 + i, str(1 + i), k, base))
                 base += k + 3
             cs.append({"mode": mode, "sessions": ss, "ds": 0, "da": 0, "seed": rng.below(1 << 30), "noise": noise})
+        # the events output is a FIFO read by a consumer that is behind and reads 1 kB at a time; every UserAction is
+        # larger than PIPE_BUF (a long command line) while failed logins are written by the other pipeline
+        for nsess, k, noise in ([(3, 24, 300), (2, 40, 600)] if quick else [(3, 24, 300), (2, 40, 600), (4, 60, 2000), (6, 30, 1500)] * 3):
+            ss, base = [], 10
+            for i in range(nsess):
+                ss.append((1000 + i, str(1 + i), k, base))
+                base += k + 3
+            cs.append({"mode": "f", "sessions": ss, "ds": 0, "da": 0, "seed": rng.below(1 << 30), "noise": noise})
         return cs
 
     def extra_cases(self, rng, n):
